@@ -238,7 +238,9 @@ def corpus_files():
 
 PROLOGUES = [[], ['"""doc"""'], ["from __future__ import annotations"], ['"""doc"""', "from __future__ import annotations"],
              ['"""doc"""', "'second string'", "from __future__ import annotations", "from __future__ import division"],
-             ["from __future__ import annotations", '"""not a docstring"""'], ["1", "2.5", "None"]]
+             ["from __future__ import annotations", '"""not a docstring"""'], ["1", "2.5", "None"],
+             # an EMPTY docstring is a docstring too (falsy, but the first statement)
+             ['""'], ['""', "from __future__ import annotations"], ["''", "from __future__ import annotations", "from __future__ import division"], ['""', "'second'"]]
 
 
 KITCHEN_SINK = '''"""module docstring"""
